@@ -110,6 +110,9 @@ impl Program {
 
         let new_file = MScriptFile::open(Rc::clone(&path))?;
 
+        #[cfg(mscript_verif)]
+        new_file.verif_dump();
+
         {
             let mut exports = self.module_cache.borrow_mut();
             exports.insert(
@@ -294,6 +297,11 @@ impl Program {
                 RefCell::new(entrypoint.get_exports().clone()),
             );
             log::info!("Synced module cache with the entrypoint");
+        }
+
+        #[cfg(mscript_verif)]
+        for file in self.files_in_use.borrow().values() {
+            file.verif_dump();
         }
 
         log::trace!("Creating call stack...");
